@@ -324,6 +324,10 @@ func ToDateTime(ctx *expr.Context, input system.Collection, args ...expr.Express
 	return system.Collection{}, nil
 }
 
+// Strings convertible to Decimal, per https://hl7.org/fhirpath/N1/#todecimal-decimal
+// (the decimal library also accepts exponents and a bare decimal point).
+var decimalStringRegexp = regexp.MustCompile(`^(\+|-)?\d+(\.\d+)?$`)
+
 // ToDecimal converts the input to a Decimal
 // FHIRPath docs here: https://hl7.org/fhirpath/N1/#todecimal-decimal
 func ToDecimal(ctx *expr.Context, input system.Collection, args ...expr.Expression) (system.Collection, error) {
@@ -357,6 +361,9 @@ func ToDecimal(ctx *expr.Context, input system.Collection, args ...expr.Expressi
 		return system.Collection{result}, nil
 	case system.String:
 		str := fmt.Sprintf("%s", value)
+		if !decimalStringRegexp.MatchString(str) {
+			return system.Collection{}, nil
+		}
 		result, err := system.ParseDecimal(str)
 		if err != nil {
 			return system.Collection{}, nil
